@@ -195,6 +195,46 @@ def run_gram(pid, tier, rep, deadline_s):
                        'the reference LR(1) construction, CFG membership fixpoint and reference driver in /verif/ref are correct (they are cross-checked against each other on every LR(1) grammar)',
                        'terminals are single characters; whitespace and lexing are decided by C04/C10']
 
+# ----------------------------------------------------------------------------- E-SCALE (grammars beyond the frames' size)
+SCALE_PROPS = ('C01', 'C05', 'C08', 'C09', 'C11', 'C12')
+def run_scale(pid, tier, rep, deadline_s):
+    """Runs every family instance of gen/scale_gen.py; violations tagged with this property are reported, the counters are added to
+    the evidence under coverage['scale']."""
+    exes = common.build_scale(tier)
+    if isinstance(exes, tuple): harness_error('the scale harness does not compile against this tree:\n' + exes[1])
+    from concurrent.futures import ThreadPoolExecutor
+    def one(fe):
+        f, e = fe
+        return f, sh([e], timeout=max(30, deadline_s - (time.time() - rep.t0)))
+    tot = {}; fams = []; nv = 0; incomplete = []
+    with ThreadPoolExecutor(max_workers=max(2, NCPU // 2)) as ex:
+        results = list(ex.map(one, sorted(exes.items())))
+    for f, r in results:
+        if r.timed_out: incomplete.append(f); continue
+        if r.returncode not in (0, 1) or not r.stdout.strip():
+            if r.returncode < 0 or r.returncode >= 128:
+                rep.add({'kind': 'engine-crash', 'known': '', 'engine': 'scale', 'family': f, 'summary': 'scale family %s: the real code crashed (exit %s) %s' % (f, r.returncode, r.stderr[-300:])}); continue
+            harness_error('scale family %s exited %s: %s' % (f, r.returncode, r.stderr[-800:]))
+        d = json.loads(r.stdout.strip().splitlines()[-1])
+        c = d['counters']; fams.append({'family': f, 'terminals': c.get('terminals'), 'rules': c.get('rules'), 'nonterminals': c.get('nonterminals'), 'states': c.get('real_states'), 'max_items_per_state': c.get('ref_max_items_per_state'),
+                                        'cells_compared': c.get('cells', 0), 'diag_lines_checked': c.get('diag_lines_checked', 0), 'parses': c.get('parses', 0), 'parses_recovered': c.get('parses_recovered', 0), 'sr_cells': c.get('sr_cells', 0)})
+        for k, v in c.items():
+            if isinstance(v, int) and not k.startswith('viol|') and k not in ('terminals', 'rules', 'nonterminals', 'ref_max_items_per_state'): tot[k] = tot.get(k, 0) + v
+        for v in d['violations']:
+            if v['prop'] != pid: continue
+            nv += 1
+            rep.add({'kind': 'scale-' + v['kind'], 'known': '', 'engine': 'scale', 'family': f, 'subject': f, 'input': v['input'],
+                     'summary': 'scale family %s%s: %s' % (f, (' input ' + v['input']) if v['input'] else '', v['detail']), 'replay_cmd': './check %s --replay <this file>' % pid})
+    rep.coverage['scale'] = {'families': fams, 'totals': tot, 'incomplete': incomplete,
+                             'rule': 'each family instance is an ordinary DSL parser (custom limits) of a grammar generated by gen/scale_gen.py at a size the injection frames cannot reach; its real table and item sets are walked against the dynamic reference LR(1) collection (ref/lr1_dyn.hpp), the complete write_diag_str text is compared with the text regenerated from the reference, and every token string up to the family length bound over a terminal sample that includes the highest indices, plus listed sentences, is parsed and compared (outcome, reduction sequence, error stream) with the documented driver'}
+    if incomplete: rep.coverage['exhaustive'] = False
+    rep.coverage.setdefault('bounds', []).append({'pass': 'E-SCALE: %d generated grammar families beyond the frames\' size (up to %s terminals, %s rules, %s nonterminals, %s states)' % (
+        len(fams), max([x['terminals'] for x in fams] or [0]), max([x['rules'] for x in fams] or [0]), max([x['nonterminals'] for x in fams] or [0]), max([x['states'] for x in fams] or [0])), 'completed': not incomplete})
+    rep.coverage['states'] = rep.coverage.get('states', 0) + tot.get('real_states', 0)
+    rep.coverage['transitions'] = rep.coverage.get('transitions', 0) + tot.get('cells', 0) + tot.get('parses', 0)
+    rep.coverage['traces_validated_against_impl'] = rep.coverage.get('traces_validated_against_impl', 0) + tot.get('parses', 0)
+    return nv
+
 def dsl_conformance(tier, exe):
     """DESIGN 1.6: every grammar of the smallest tier written as an ordinary DSL program; its diagnostic text and parse results
     must equal what the injected frame of the same grammar produces. Returns (validated, mismatches)."""
@@ -259,7 +299,7 @@ def rx_passes(pid, tier):
         return [('pattern ASTs up to %d nodes over 9 atom pools (2-3 atoms; * + ? {0,1,2,3,10,12} group cat alt); strings<=%d over byte-class representatives; pair BFS over all 256 bytes' % (4 if q else 5, 4),
                  ['--mode', 'c03', '--K', '4' if q else '5', '--maxlen', '4'])]
     if pid == 'C04':
-        P = [('ordered term sets of size<=2 from a pool of %d term specs x inputs<=%d over {a,b,c,space,\\n,\\t,\\r,\\v} x 3 whitespace option combinations' % (12 if q else 30, 4 if q else 5),
+        P = [('ordered term sets of size<=2 from a pool of %d term specs x inputs<=%d over {a,b,c,space,\\n,\\t,\\r,\\v,NUL} x 3 whitespace option combinations; plus a one-dimensional sweep of lexeme lengths 255..200000 for two term sets' % (12 if q else 30, 4 if q else 5),
               ['--mode', 'c04', '--setsize', '2', '--pool', '0' if q else '1', '--maxlen', '4' if q else '5'])]
         if not q: P.append(('ordered term sets of size 3 from the 12-spec pool x inputs<=4', ['--mode', 'c04', '--setsize', '3', '--pool', '0', '--maxlen', '4']))
         P.append(('ordered term sets of size 4..6 from a pool of %d mutually overlapping term specs (six-slot list grammar: more terms end in one automaton state than it has slots for) x inputs<=%d over {a,b,c,space}' % (8 if q else 10, 3 if q else 4),
@@ -753,6 +793,8 @@ def main(argv):
             if isinstance(e, tuple): print(e[1]); return 2
             e = common.build_rx()
             if isinstance(e, tuple): print(e[1]); return 2
+            e = common.build_scale('quick')
+            if isinstance(e, tuple): print(e[1]); return 2
             print('setup ok in %.0fs' % (time.time() - t)); return 0
         pid = argv[0]; tier = os.environ.get('VERIF_TIER', 'quick') or 'quick'; replay = None
         i = 1
@@ -801,4 +843,5 @@ def dispatch(pid, tier, rep, deadline):
         elif pid == 'C06': run_c06(pid, tier, rep, deadline)
         elif pid == 'C12': run_c12(pid, tier, rep, deadline)
         else: return False
+        if pid in SCALE_PROPS: run_scale(pid, tier, rep, deadline)
         return True
